@@ -244,17 +244,10 @@ def install_probes():
             snap = {"etype": type(event).__name__, "t": vclock.vnow(), "n": tr.rec.seq, "run_id": self.run_id}
             runner = next((r for r in reversed(tr.runners) if r.adapter.run_id == self.run_id), None)
             if runner is not None:
-                q = self._queues.receive_queue
-                snap["runner"] = {
-                    "wakeups": [type(t[2]).__name__ for t in runner.scheduled_wakeups],
-                    "buffer": [type(t).__name__ for t in runner.tick_buffer],
-                    "recvq": [type(t).__name__ for t in list(q._queue)],
-                    "pulled": [n for (n, rid) in tr.extra.get("pulled", {}).values() if rid == self.run_id],
-                    "workers": {n: {"q": len(w.queue), "ip": len(w.in_progress)} for n, w in runner.state.workers.items()},
-                    "worker_tasks": len(runner.worker_tasks),
-                    "pending_workers": len(runner._pending_workers),
-                    "running": runner.state.is_running,
-                }
+                try:
+                    snap["runner"] = _runner_snapshot(self, runner, tr)
+                except Exception as e:  # noqa: BLE001  (an internal attribute the probe reads is gone: go on with the black-box rules)
+                    tr.extra["probe_error"] = repr(e)
             try:
                 snap["uid"] = event.get("uid", None)
             except Exception:  # noqa: BLE001
@@ -268,6 +261,20 @@ def install_probes():
 
     basic.InternalAsyncioAdapter.write_to_event_stream = write_probe
     _installed = True
+
+
+def _runner_snapshot(adapter, runner, tr):
+    q = adapter._queues.receive_queue
+    return {
+        "wakeups": [type(t[2]).__name__ for t in runner.scheduled_wakeups],
+        "buffer": [type(t).__name__ for t in runner.tick_buffer],
+        "recvq": [type(t).__name__ for t in list(q._queue)],
+        "pulled": [n for (n, rid) in tr.extra.get("pulled", {}).values() if rid == adapter.run_id],
+        "workers": {n: {"q": len(w.queue), "ip": len(w.in_progress)} for n, w in runner.state.workers.items()},
+        "worker_tasks": len(runner.worker_tasks),
+        "pending_workers": len(runner._pending_workers),
+        "running": runner.state.is_running,
+    }
 
 
 def describe_event(e):
@@ -448,8 +455,11 @@ def run_with_snapshots(spec, *, every=True, only_k=None, extra=None, **run_kwarg
         ent = {"k": i, "ticks": len(tr.ticks), "snap": None, "err": None, "t": vclock.vnow()}
         runner = next((r for r in reversed(tr.runners) if r.adapter.run_id == adapter.run_id), None)
         if runner is not None:
-            ent["wakeups"] = [type(t[2]).__name__ for t in runner.scheduled_wakeups]
-            ent["buffer"] = [type(t).__name__ for t in runner.tick_buffer]
+            try:
+                ent["wakeups"] = [type(t[2]).__name__ for t in runner.scheduled_wakeups]
+                ent["buffer"] = [type(t).__name__ for t in runner.tick_buffer]
+            except Exception as e:  # noqa: BLE001
+                tr.extra["probe_error"] = repr(e)
         try:
             # ticks the run has accepted but its control loop has not processed: the mailbox, and a tick held by a finished pull task
             ent["recvq"] = [type(t).__name__ for t in list(adapter._queues.receive_queue._queue)]
